@@ -314,6 +314,83 @@ pub fn bigmesh_case(ctx: &Ctx, c: &BigMesh) -> Vec<Viol> {
     out
 }
 
+// ---------------- late joiner behind a NAT, long peer-exchange intervals ----------------
+
+#[derive(Clone, Debug, Serialize, Deserialize)]
+pub struct LateJoin {
+    /// peer timeout of every node (the announcement interval is timeout / 2 - 60: 300 -> 90 s, 600 -> 240 s, 1200 -> 540 s)
+    pub peer_timeout: u16,
+    /// second at which the last node dials the hub
+    pub late: u16,
+    /// bit i: node i (1 = first leaf, 2 = late leaf) is behind an address-filtering NAT
+    pub nat: u8,
+    pub leaves: u8,
+}
+
+/// A hub that everybody dials; the last leaf joins `late` seconds after the others. It learns the other leaves from the
+/// hub's handshake payload and dials them alone (NATed leaves do not hear it); the others are told about it at the hub's
+/// next announcement - with a long interval only after the late leaf's first dial has given up (120 retries). The mesh
+/// must still complete: every announcement makes both sides dial again.
+pub fn latejoin_case(ctx: &Ctx, c: &LateJoin) -> Vec<Viol> {
+    ctx.eval();
+    let cj = || json!({"kind": "latejoin", "case": c});
+    let mut out = vec![];
+    let n = 1 + c.leaves.clamp(2, 4) as usize;
+    let interval = (c.peer_timeout as i64 / 2 - 60).max(1);
+    let mut sim: NetSim<Frame> = NetSim::new();
+    for i in 0..n {
+        let mut cfg = base_config();
+        cfg.auto_claim = false;
+        cfg.mode = Mode::Switch;
+        cfg.peer_timeout = c.peer_timeout as u32;
+        sim.add_node(&cfg, i > 0 && c.nat & (1 << (i.min(2))) != 0);
+    }
+    let hub = sim.addr(0);
+    for i in 1..n - 1 {
+        sim.connect(i, hub);
+    }
+    sim.settle();
+    sim.run(c.late as i64);
+    sim.connect(n - 1, hub);
+    sim.settle();
+    let bound = n as i64 * interval + 130;
+    let mut meshed_at = None;
+    for s in 0..bound {
+        if sim.all_connected() {
+            meshed_at = Some(s);
+            break;
+        }
+        sim.tick();
+        if sim.storm {
+            ctx.class("inconclusive:handshake-repeat-loop(storm)");
+            return out;
+        }
+        if let Some(why) = self_peer_violation(&sim) {
+            out.push(Viol::new("node-peers-with-itself", format!("t+{}: {}", s, why), cj()));
+            return out;
+        }
+        if let Some((i, p, ctxt)) = sim.panics.first() {
+            out.push(Viol::new(format!("node-{}", p.sig()), format!("node {} panicked: {} ({})", i, p.msg, ctxt), cj()));
+            return out;
+        }
+    }
+    match meshed_at {
+        None => {
+            let missing: Vec<(usize, usize)> = (0..n).flat_map(|i| (0..n).map(move |j| (i, j))).filter(|(i, j)| i != j && !sim.is_connected(*i, *j)).collect();
+            out.push(Viol::new(
+                "no-full-mesh-within-bound",
+                format!("hub + {} leaves (NAT mask {:b}), announcement interval {} s, last leaf joined at {} s: {} s later these directed pairs are not connected: {:?}", n - 1, c.nat, interval, c.late, bound, missing),
+                cj(),
+            ));
+        }
+        Some(s) => {
+            ctx.class(&format!("latejoin:meshed-within-{}-intervals", s / interval + 1));
+            ctx.nontrivial(&("latejoin", c.peer_timeout, c.late, c.nat, c.leaves));
+        }
+    }
+    out
+}
+
 // ---------------- self dial ----------------
 
 #[derive(Clone, Debug, Serialize, Deserialize)]
@@ -604,6 +681,25 @@ pub fn run(ctx: &Ctx) {
     ctx.subspace("meshes of 21..30 nodes (an announcement lists at most 20 peers): star dialled inwards / outwards, path, random tree", nbig, false);
     ctx.sample("bigmesh", || serde_json::to_value(&big[0]).unwrap());
 
+    // (1c) late joiners behind NATs with long announcement intervals
+    let mut lj = vec![];
+    for peer_timeout in [300u16, 600, 1200] {
+        for late in [0u16, 30, 100, 200] {
+            for nat in [0u8, 0b010, 0b100, 0b110] {
+                for leaves in [2u8, 3] {
+                    lj.push(LateJoin { peer_timeout, late, nat, leaves });
+                }
+            }
+        }
+    }
+    let nlj = lj.len() as u64;
+    ctx.par_items(&lj, |_, c| {
+        let v = latejoin_case(ctx, c);
+        ctx.report(v);
+    });
+    ctx.sample("latejoin", || serde_json::to_value(&lj[40]).unwrap());
+    ctx.subspace("hub + 2-3 leaves, last leaf joins 0 / 30 / 100 / 200 s late, leaves behind NATs, announcement interval 90 / 240 / 540 s", nlj, true);
+
     // (2) self dial: all combinations
     let mut sd = vec![];
     for in_mesh in [false, true] {
@@ -636,6 +732,7 @@ pub fn replay(ctx: &Ctx, case: &Value) {
     let v = match case["kind"].as_str() {
         Some("graph") => serde_json::from_value::<GraphCase>(case["case"].clone()).map(|c| graph_case(ctx, &c)).unwrap_or_default(),
         Some("selfdial") => serde_json::from_value::<SelfDial>(case["case"].clone()).map(|c| selfdial_case(ctx, &c)).unwrap_or_default(),
+        Some("latejoin") => serde_json::from_value::<LateJoin>(case["case"].clone()).map(|c| latejoin_case(ctx, &c)).unwrap_or_default(),
         Some("bigmesh") => serde_json::from_value::<BigMesh>(case["case"].clone()).map(|c| bigmesh_case(ctx, &c)).unwrap_or_default(),
         Some("adoption") => adoption_case(ctx, case["seconds"].as_u64().unwrap_or(0) as u16, case["v4"].as_bool().unwrap_or(false)),
         _ => vec![],
